@@ -143,6 +143,7 @@ type Call struct {
 	Op      Op
 	Key     string
 	Data    []byte
+	lazy    *bytes.Reader // payload still to be read when the call lands (see lazyPayload)
 	CRC     uint32
 	HasCRC  bool
 	Token   string
@@ -507,35 +508,48 @@ func (h *Handle) Touch(_ context.Context, k string) error {
 }
 
 // Put implements storage.Store. The reader is drained before the call is parked.
-func (h *Handle) Put(_ context.Context, k string, r io.Reader, noOverwrite bool) error {
-	data, err := io.ReadAll(r)
-	if err != nil {
-		return err
+// lazyPayload: an upload streams its payload while it is in flight. When the caller hands over an in-memory
+// *bytes.Reader the bytes are looked at when the call is registered (for the canonical order of parked calls) but
+// taken for good only when the scheduler lets the call land: a caller that recycles the buffer behind the reader
+// before Put has returned stores the recycled bytes, as it would against a real object store.
+func lazyPayload(r io.Reader) ([]byte, *bytes.Reader, error) {
+	if br, ok := r.(*bytes.Reader); ok {
+		snap := make([]byte, br.Len())
+		if _, err := br.ReadAt(snap, br.Size()-int64(br.Len())); err != nil && err != io.EOF {
+			return nil, nil, err
+		}
+		return snap, br, nil
 	}
+	data, err := io.ReadAll(r)
 	if data == nil {
 		data = []byte{}
+	}
+	return data, nil, err
+}
+
+func (h *Handle) Put(_ context.Context, k string, r io.Reader, noOverwrite bool) error {
+	data, lazy, err := lazyPayload(r)
+	if err != nil {
+		return err
 	}
 	op := OpPut
 	if noOverwrite {
 		op = OpPutExcl
 	}
-	return h.call(&Call{Op: op, Key: k, Data: data}).err
+	return h.call(&Call{Op: op, Key: k, Data: data, lazy: lazy}).err
 }
 
 // PutCRC implements storage.StoreCRC.
 func (h *Handle) PutCRC(_ context.Context, k string, r io.Reader, noOverwrite bool, crc uint32) error {
-	data, err := io.ReadAll(r)
+	data, lazy, err := lazyPayload(r)
 	if err != nil {
 		return err
-	}
-	if data == nil {
-		data = []byte{}
 	}
 	op := OpPut
 	if noOverwrite {
 		op = OpPutExcl
 	}
-	return h.call(&Call{Op: op, Key: k, Data: data, CRC: crc, HasCRC: true}).err
+	return h.call(&Call{Op: op, Key: k, Data: data, CRC: crc, HasCRC: true, lazy: lazy}).err
 }
 
 // Delete implements storage.Store.
